@@ -17,6 +17,7 @@ import (
 
 type c05Gen struct {
 	lowNeg bool // few negative 8-bit constants (forms whose imm8 the assembler reads as unsigned)
+	target string // near-miss: perturb an operand of this type name ("" = any operand)
 	noK0   int  // operand position that must not be K0 (write mask), -1 = none
 	vecMax int  // vector registers 0..vecMax-1 are used (16 for forms without an AVX-512 encoding)
 	r      *rng
@@ -269,17 +270,36 @@ func (g *c05Gen) nearMiss(types []string, ops []operand.Op) string {
 		return ""
 	}
 	i := g.r.intn(len(ops))
+	if g.target != "" {
+		var at []int
+		for k, t := range types {
+			if t == g.target {
+				at = append(at, k)
+			}
+		}
+		if len(at) == 0 {
+			return ""
+		}
+		i = pick(g.r, at)
+	}
 	t := types[i]
 	switch {
 	case t == "imm8" || t == "imm2u" || t == "1" || t == "3":
-		ops[i] = pick(g.r, []operand.Op{operand.U16(0x100), operand.U16(0xffff), operand.I16(-129), operand.U32(0x10000), operand.U8(4), operand.U8(0xff)})
+		ops[i] = pick(g.r, []operand.Op{operand.U16(0x100), operand.U16(0xffff), operand.I16(-129), operand.U32(0x10000), operand.U8(4), operand.U8(0xff),
+			operand.U16(1), operand.I32(3), operand.U64(1 << 8)})
 		return "imm-wider"
 	case t == "imm16":
-		ops[i] = pick(g.r, []operand.Op{operand.U32(0x10000), operand.I32(-32769), operand.U64(1 << 40)})
+		ops[i] = pick(g.r, []operand.Op{operand.U32(0x10000), operand.I32(-32769), operand.U64(1 << 40), operand.U32(0x12345), operand.I32(1 << 16), operand.U8(0x7f), operand.I64(-(1 << 15) - 1)})
 		return "imm-wider"
 	case t == "imm32":
-		ops[i] = pick(g.r, []operand.Op{operand.U64(1 << 32), operand.I64(-(1 << 31) - 1), operand.U64(0xffffffff)})
+		ops[i] = pick(g.r, []operand.Op{operand.U64(1 << 32), operand.I64(-(1 << 31) - 1), operand.U64(0xffffffff), operand.U64(1<<32 + 5), operand.I64(1 << 40), operand.U16(0x8000)})
 		return "imm-wider"
+	case t == "imm64":
+		ops[i] = pick(g.r, []operand.Op{operand.U8(0xff), operand.I16(-1), operand.Rel(5)})
+		return "imm-narrower"
+	case t == "rel8" || t == "rel32":
+		ops[i] = pick(g.r, []operand.Op{operand.U8(5), operand.I32(-2), g.gpReg(8), operand.Mem{Base: g.gpReg(8)}})
+		return "rel-kind"
 	case t == "al" || t == "cl" || t == "ax" || t == "eax" || t == "rax" || t == "xmm0":
 		// another view of the very same register, or its neighbour: must not match the fixed-register row
 		alt := map[string][]operand.Op{
@@ -399,6 +419,53 @@ func (g *c05Gen) malform(types []string, ops []operand.Op) string {
 	return what
 }
 
+// c05RegLikeNames are valid Go identifiers (hence possible label and parameter names) that are register names of the Go assembler.
+var c05RegLikeNames = []string{"AX", "CX", "R8", "R15", "X1", "Y7", "Z31", "K1", "AL", "R8B", "SB", "SP", "FP", "PC"}
+
+// shape produces operands that the operand classes accept and that are well-typed as Go values, whose PRINTED form
+// the Go assembler reads differently or not at all (review C05-3): a label reference or a parameter named like a
+// register, a pseudo-register base without a symbol, a symbol on a general-purpose base, symbol names that are not
+// assembler identifiers.
+func (g *c05Gen) shape(types []string, ops []operand.Op) string {
+	var idxs []int
+	for i, t := range types {
+		if t == "rel32" || t == "rel8" {
+			idxs = append(idxs, i)
+		} else if _, ok := ops[i].(operand.Mem); ok && !strings.HasPrefix(t, "vm") {
+			idxs = append(idxs, i)
+		}
+	}
+	if len(idxs) == 0 {
+		return ""
+	}
+	i := pick(g.r, idxs)
+	if types[i] == "rel32" || types[i] == "rel8" {
+		if types[i] == "rel8" {
+			return "" // rel8 forms take operand.Rel only
+		}
+		ops[i] = operand.LabelRef(pick(g.r, c05RegLikeNames))
+		return "label-regname"
+	}
+	switch g.r.intn(4) {
+	case 0:
+		ops[i] = operand.Mem{Base: pick(g.r, []reg.Register{reg.FramePointer, reg.StaticBase}), Disp: pick(g.r, []int{0, 8, 16, -8})}
+		return "pseudo-nosym"
+	case 1:
+		base := pick(g.r, g.gp[8])
+		for base == reg.RSP { // prints as SP: with a symbol that is the pseudo register, a valid reference
+			base = pick(g.r, g.gp[8])
+		}
+		ops[i] = operand.Mem{Symbol: operand.Symbol{Name: pick(g.r, []string{"x", "tbl"}), Static: g.r.chance(1, 2)}, Base: base, Disp: pick(g.r, []int{0, 8, -8})}
+		return "sym-gpbase"
+	case 2:
+		ops[i] = operand.NewParamAddr(pick(g.r, c05RegLikeNames), pick(g.r, []int{0, 8, 24}))
+		return "param-regname"
+	default:
+		ops[i] = operand.NewParamAddr(pick(g.r, []string{"a-b", "a+b", "a.b", "1a", "a b"}), pick(g.r, []int{0, 8, 24}))
+		return "param-nonident"
+	}
+}
+
 // ---------------------------------------------------------------------------
 // Cases
 // ---------------------------------------------------------------------------
@@ -406,12 +473,14 @@ func (g *c05Gen) malform(types []string, ops []operand.Op) string {
 type c05Case struct {
 	id       int
 	gen      *formRow // the row the operands were generated for
+	call     string   // the opcode whose constructor is called (the row lies in the range of forms that constructor scans)
 	form     *formRow // the first matching row (what build() used)
 	sfx      []string
 	ops      []operand.Op
 	inst     *ir.Instruction
 	stream   string // "form", "nearmiss:<what>", "malformed:<what>", "scripted:<name>"
 	label    string // label defined after the instruction when an operand is a LabelRef
+	tail     bool   // a second instruction (long opcode) follows in the same block: exercises the printer's opcode padding
 	line     string // printed instruction line
 	status   string // "ok", "rejected"
 	errmsg   string
@@ -424,9 +493,27 @@ type c05Case struct {
 	decoded  string   // canonical decoded description
 }
 
+// c05Call: per opcode name the indices of the forms its constructor scans (x86.VerifOpcodeForms = opcode.Forms()),
+// c05CallOf: the inverse. A row is always exercised through the constructor that scans it, whatever opcode the row
+// itself names (seeded change C05-1: a row of ADDL naming ADDQ).
+var (
+	c05Call   map[string][]int
+	c05CallOf map[int]string
+)
+
+func c05InitCall(db *formsDB) {
+	c05Call, c05CallOf = map[string][]int{}, map[int]string{}
+	for name, r := range x86.VerifOpcodeForms() {
+		for i := r[0]; i < r[1] && i < len(db.rows); i++ {
+			c05Call[name] = append(c05Call[name], i)
+			c05CallOf[i] = name
+		}
+	}
+}
+
 // c05MatchedForm returns the first form row of the opcode matching suffixes and operands (what x86.build selects).
 func c05MatchedForm(db *formsDB, opcode string, sfx []string, ops []operand.Op) *formRow {
-	for _, ix := range db.byOpcode[opcode] {
+	for _, ix := range c05Call[opcode] {
 		f := &db.rows[ix]
 		okS := false
 		for _, s := range f.Suffixes {
@@ -536,11 +623,17 @@ func (g *c05Gen) build(db *formsDB, row *formRow, stream string) *c05Case {
 		if len(row.Suffixes) > 0 {
 			sfx0 = pick(g.r, row.Suffixes)
 		}
-		safely(func() error { _, e := x86.VerifBuild(row.Opcode, sfx0, append([]operand.Op(nil), ops...)); return e })
+		safely(func() error { _, e := x86.VerifBuild(c05CallOf[row.Index], sfx0, append([]operand.Op(nil), ops...)); return e })
 		ops[at] = pick(g.r, sib[types[at]])
 		return g.buildOps(db, row, "nearmiss:fixed-reg-sibling", sfx0, ops)
 	case "nearmiss":
 		what := g.nearMiss(types, ops)
+		if what == "" {
+			return nil
+		}
+		stream += ":" + what
+	case "shape":
+		what := g.shape(types, ops)
 		if what == "" {
 			return nil
 		}
@@ -561,27 +654,47 @@ func (g *c05Gen) build(db *formsDB, row *formRow, stream string) *c05Case {
 
 func (g *c05Gen) buildOps(db *formsDB, row *formRow, stream string, sfx []string, ops []operand.Op) *c05Case {
 	var inst *ir.Instruction
+	call := c05CallOf[row.Index]
 	err, panicked := safely(func() error {
 		var e error
-		inst, e = x86.VerifBuild(row.Opcode, sfx, ops)
+		inst, e = x86.VerifBuild(call, sfx, ops)
 		return e
 	})
 	key := strings.SplitN(stream, ":", 2)[0]
 	if panicked {
 		g.stats[key+"_ctor_panic"]++
-		return &c05Case{gen: row, sfx: sfx, ops: ops, stream: stream, status: "panic", errmsg: err.Error()}
+		return &c05Case{gen: row, call: call, sfx: sfx, ops: ops, stream: stream, status: "panic", errmsg: err.Error()}
 	}
 	if err != nil || inst == nil {
 		g.stats[key+"_ctor_rejected"]++
+		if key != stream {
+			g.stats["rejected_"+stream]++
+		}
 		return nil
 	}
 	g.stats[key+"_ctor_accepted"]++
-	c := &c05Case{gen: row, sfx: sfx, ops: ops, inst: inst, stream: stream}
-	c.form = c05MatchedForm(db, row.Opcode, sfx, ops)
+	if key != stream && !strings.HasPrefix(stream, "scripted:") {
+		g.stats["accepted_"+stream]++
+	}
+	c := &c05Case{gen: row, call: call, sfx: sfx, ops: ops, inst: inst, stream: stream}
+	c.form = c05MatchedForm(db, call, sfx, ops)
 	for _, op := range ops {
 		if l, ok := op.(operand.LabelRef); ok {
 			c.label = string(l)
 		}
 	}
+	// the block gets a second, longer opcode for a quarter of the label-free cases with operands
+	// (decided from the operands, not from the random stream: replay rebuilds the same case)
+	if c.label == "" && len(ops) > 0 && c05Hash(c05Describe(c))%4 == 0 && call != "PREFETCHNTA" {
+		c.tail = true
+	}
 	return c
+}
+
+func c05Hash(s string) uint32 {
+	h := uint32(2166136261)
+	for i := 0; i < len(s); i++ {
+		h = (h ^ uint32(s[i])) * 16777619
+	}
+	return h
 }
